@@ -1088,21 +1088,58 @@ package storage
 
 // ---- recovery (C02 C03 C04) ----
 
+// recovered: the number of databases whose log has been replayed to the end (set by replay when it succeeds)
+//@ ghost var recovered int
 //@ spec pred logWF(w WALBatch) { forall i int :: 0 <= i && i < len(w) ==> w[i] != nil && (w[i].WALOp != OpInsert ==> leafAt(w[i].pageID)) }
 //@ func (w WALBatch) replay(fs *fileStore) error
 //@   props C02 C03 C04
-//@   requires fs != nil && cacheOK(fs) && !fs.autoFlushCache && txn == 0 && logWF(w)
+//@   requires fs != nil && cacheOK(fs) && !fs.autoFlushCache && txn == 0
+//@   requires[log.wf] logWF(w)
 //@   assume[rowid-no-wrap] fs.lastKey + len(w) <= 4294967295
 //@   assume[lsn-no-wrap] forall i int :: 0 <= i && i < len(w) ==> w[i].LSN < 18446744073709551615
-//@   modifies @treeState, @cacheState, storeState, fs._nextLSN, fs.lastKey, fs.nextFreeOffset, txn, written, all(BTree.rootOffset), fdata, fsize
+//@   modifies @treeState, @cacheState, storeState, fs._nextLSN, fs.lastKey, fs.nextFreeOffset, txn, written, all(BTree.rootOffset), fdata, fsize, recovered
+//@   ensures_assumed[ghost.recovered] result == nil ==> recovered == old(recovered) + 1
+//@   ensures[ghost.recovered.err; C02] result != nil ==> recovered == old(recovered)
 //@   ensures[L8; C02 C04] fs._nextLSN >= old(fs._nextLSN)
 //@   ensures[L7; C02 C03 C04] result == nil ==> fs.lastKey >= old(fs.lastKey)
 //@   ensures[unlock; C13] txn == 0
+//@   ensures[cache] cacheOK(fs) && !fs.autoFlushCache
 //@   ensures[abort.onlystore; C02 C03 C04] (forall i int :: 0 <= i && i < len(w) ==> w[i].WALOp != OpDelete) && result != nil ==> opFailed(fs)
 //@   loop 1 invariant fs != nil && cacheOK(fs) && !fs.autoFlushCache && txn == 0 && logWF(w)
 //@   loop 1 invariant [L8; C02] fs._nextLSN >= old(fs._nextLSN)
 //@   loop 1 invariant [L8.next; C02 C04] forall i int :: 0 <= i && i <= rangeindex ==> w[i].LSN < fs._nextLSN
 //@   loop 1 invariant [L7; C02 C03] fs.lastKey >= old(fs.lastKey) && fs.lastKey <= old(fs.lastKey) + rangeindex + 1
+
+// Start-up recovery: every database directory that has a data file gets its log read and replayed, in a store without flush timer,
+// and nothing stays open or locked afterwards.
+//@ func MakeDataDir() error
+//@   props C02
+//@   trusted
+//@   modifies storeState
+
+//@ func listDBs() ([]string, error)
+//@   props C02
+//@   trusted
+//@   modifies storeState
+//@   ensures result0 == nil || fresh(result0)
+
+//@ func InitStorage$1() error
+//@   props C02 C03 C04 C17
+//@   requires txn == 0
+//@   assumepre (WALBatch).replay.log.wf A-LOG: the records read from the log are non-nil and its update and delete records name leaf pages (what the statements are proved to write: L3; not proved for what read returns from an arbitrary file)
+//@   modifies storeState, openStores, txn, @treeState, @cacheState, written, fdata, fsize, rpos, recovered, all(BTree.rootOffset)
+//@   ensures[unlock; C13] txn == 0
+//@   ensures[stores; C17] openStores == old(openStores)
+//@   ensures[replayed; C02 C03 C04] result == nil && db != "" && dbExists(db) ==> recovered == old(recovered) + 1
+
+//@ func InitStorage() error
+//@   props C02 C03 C04 C17
+//@   requires txn == 0
+//@   modifies storeState, openStores, txn, @treeState, @cacheState, written, fdata, fsize, rpos, recovered, all(BTree.rootOffset)
+//@   ensures[unlock; C13] txn == 0
+//@   ensures[stores; C17] openStores == old(openStores)
+//@   loop 1 invariant txn == 0 && openStores == old(openStores)
+//@   loop 1 exit[all.dbs; C02 C17] rangeindex + 1 >= len(dbs)
 
 // ---- page flush and table creation under the lock typestate (C13, C04, C14) ----
 
